@@ -1103,6 +1103,8 @@ def remove_redundant_transpose_reduce_ir(graph: ir.Graph) -> None:
             if reducer_consumers[0] is not node:
                 # Should be covered by consumers scan logic, but double check
                 continue
+            if _value_escapes(graph, nodes, reducer_out_val):
+                continue
 
             # 1. Update Reducer inputs
             # Input 0 becomes T1 input 0
@@ -1263,6 +1265,11 @@ def remove_redundant_transpose_add_forests_ir(graph: ir.Graph) -> None:
             if match is None:
                 continue
             add_nodes, perm_fwd, _perm_inv, input_transposes, output_transposes = match
+            if any(
+                _value_escapes(graph, nodes, _node_output(add_node))
+                for add_node in add_nodes
+            ):
+                continue
 
             # Rewrite Add inputs from Transpose(perm_fwd)(x) to x.
             for add_node in add_nodes:
@@ -1300,7 +1307,9 @@ def remove_redundant_transpose_add_forests_ir(graph: ir.Graph) -> None:
                     continue
                 if _consumer_nodes(live_nodes, t_out):
                     continue
-                if t_out.is_graph_output():
+                if t_out.is_graph_output() or _nested_graph_references_value(
+                    live_nodes, t_out
+                ):
                     continue
                 removable_inputs.append(in_transpose)
             if removable_inputs:
@@ -1431,6 +1440,11 @@ def remove_redundant_transpose_pairs_ir(graph: ir.Graph) -> None:
                 or not _is_inverse_perm(perm_fwd, perm_inv)
             ):
                 continue
+            if any(
+                _value_escapes(graph, nodes, _node_output(chain_node))
+                for chain_node in add_chain
+            ):
+                continue
 
             # Rewrite: move Add chain to pre-transpose layout (NCHW).
             for node in add_chain:
@@ -1528,6 +1542,11 @@ def remove_redundant_transpose_pairs_ir(graph: ir.Graph) -> None:
                 continue
             if t2_node not in output_transposes:
                 continue
+            if any(
+                _value_escapes(graph, nodes, _node_output(elem_node))
+                for elem_node in elem_nodes
+            ):
+                continue
 
             # Rewrite: replace transpose outputs feeding elementwise nodes with
             # their pre-transpose sources.
@@ -1565,7 +1584,9 @@ def remove_redundant_transpose_pairs_ir(graph: ir.Graph) -> None:
                 t_out = _node_output(t_node)
                 if t_out is None:
                     continue
-                if not _consumer_nodes(live_nodes, t_out):
+                if not _consumer_nodes(live_nodes, t_out) and not _value_escapes(
+                    graph, live_nodes, t_out
+                ):
                     graph.remove(t_node)
 
             changed = True
@@ -1593,6 +1614,11 @@ def remove_redundant_transpose_pairs_ir(graph: ir.Graph) -> None:
                 continue
             t1_out = _node_output(T1)
             if t1_out is None:
+                continue
+            if _value_escapes(graph, nodes, t1_out) or any(
+                _value_escapes(graph, nodes, _node_output(elem_node))
+                for elem_node in elem_nodes
+            ):
                 continue
             ok = True
             for consumer in _consumer_nodes(nodes, t1_out):
@@ -1661,13 +1687,17 @@ def remove_redundant_transpose_pairs_ir(graph: ir.Graph) -> None:
                 T2: Optional[ir.Node] = None
                 steps = 0
                 chain_value: Optional[ir.Value] = T1_out
-                while steps < 8:
+                chain_is_isolated = not _value_escapes(graph, nodes, T1_out)
+                while steps < 8 and chain_is_isolated:
                     steps += 1
                     m = cur
                     if m.op_type in ALLOWED_ELEMWISE:
                         if not _side_inputs_are_scalar(m, chain_value):
                             break
                         chain_value = _node_output(m)
+                        if _value_escapes(graph, nodes, chain_value):
+                            chain_is_isolated = False
+                            break
                         chain_nodes.append(m)
                         allowed_nodes.append(m)
                         cur_val = _node_output(m)
@@ -1834,7 +1864,12 @@ def remove_redundant_reshape_pairs_ir(graph: ir.Graph) -> None:
             safe_chain = True
 
             t1_out = _node_output(T1)
-            if t1_out is not None:
+            if _value_escapes(graph, nodes, t1_out) or any(
+                _value_escapes(graph, nodes, _node_output(chain_node))
+                for chain_node in allowed_fwd
+            ):
+                safe_chain = False
+            if safe_chain and t1_out is not None:
                 for consumer in _consumer_nodes(nodes, t1_out):
                     if consumer in chain_nodes or consumer is T2:
                         continue
@@ -2225,6 +2260,22 @@ def _value_is_graph_output(graph: ir.Graph, value: ir.Value | None) -> bool:
     return False
 
 
+def _value_escapes(
+    graph: ir.Graph, nodes: Sequence[ir.Node], value: Optional[ir.Value]
+) -> bool:
+    """Return whether ``value`` is observable beyond its node consumers.
+
+    Graph outputs and references from nested control-flow bodies do not show
+    up as consumer nodes, yet a rewrite that changes or removes the value
+    changes what they observe.
+    """
+    if value is None:
+        return False
+    return _value_is_graph_output(graph, value) or _nested_graph_references_value(
+        nodes, value
+    )
+
+
 def _side_inputs_are_scalar(node: ir.Node, data_value: Optional[ir.Value]) -> bool:
     """Check that ``node`` is elementwise in ``data_value`` only.
 
@@ -2592,6 +2643,9 @@ def remove_orphan_transposes_ir(graph: ir.Graph) -> None:
                     is_live = True
                     break
                 if _has_named_consumer(nodes, producer=node, output_name=out_name):
+                    is_live = True
+                    break
+                if _nested_graph_references_value(nodes, out):
                     is_live = True
                     break
 
